@@ -527,6 +527,12 @@ pub fn exec(op: &str, a: &[u64]) -> Result<Outcome, String> {
             sp_ids.extend(tok.suffix_token_ids());
             sp_ids.extend(unk);
             o.check(sp_ids.iter().all(|&i| (i as usize) >= n_reg && (i as usize) < size), "pad/unk/prefix/suffix id outside [regular, vocab_size)");
+            if let Kind::Char { .. } = &kind {
+                o.check(unk.is_some(), "the unknown token of a character tokenizer has no id in the vocabulary");
+            }
+            for t in c.tokens.iter().chain([&c.pad]).chain(&c.prefix).chain(&c.suffix) {
+                o.check(matches!(tok.token_to_id(t), Some(i) if (i as usize) >= n_reg && (i as usize) < size), "a configured special token has no id among the special ids of the vocabulary");
+            }
             // decoding a single regular id yields exactly that token's bytes (when they are UTF-8)
             for id in 0..n_reg.min(vocab.len()) {
                 if let Ok(s) = std::str::from_utf8(&vocab[id]) {
@@ -641,6 +647,9 @@ pub fn rand_common(ctx: &mut Ctx, allow_npf: bool) -> Common {
         tokens.push("<a>b".into());
     } else if r < 66 {
         tokens.push("<extra_token_0>".into());
+    } else if r < 72 {
+        // a user-supplied list with other names than the default ones (no "<unk>" in it)
+        tokens = vec!["<pad>".into(), "<s>".into(), "</s>".into(), "<mask>".into()];
     }
     let pick = |ctx: &mut Ctx, toks: &Vec<String>| toks[ctx.rng.random_range(0..toks.len())].clone();
     let np = [0, 0, 1, 2, 3][ctx.rng.random_range(0..5)];
@@ -952,8 +961,35 @@ pub fn run_bpe(ctx: &mut Ctx, c03: bool) {
             }
         }
     }
+    // very long single words (a cap on the word length, piece-wise merging of long words): a few per run, the
+    // Lean model needs seconds for them
+    let mut long_left = if ctx.thorough { 6 } else { 3 };
     for (t, ls) in tables {
         let letters = letter_sets[ls];
+        let units: Vec<Vec<u8>> = t.iter().map(|e| e.0.clone()).filter(|b| !b.contains(&b' ')).collect();
+        if c03 && long_left > 0 && !units.is_empty() && ctx.rng.random_range(0..4) == 0 {
+            long_left -= 1;
+            // a repeated unit taken from the table (so that merges chain across the whole word), shifted by a short
+            // random prefix; lengths just above 4 KiB / 8 KiB
+            let target = if ctx.thorough && long_left % 2 == 0 { 8193 } else { 4097 } + ctx.rng.random_range(0..40);
+            let unit = units[ctx.rng.random_range(0..units.len())].clone();
+            let mut w: Vec<u8> = (0..ctx.rng.random_range(0..4)).map(|_| letters[ctx.rng.random_range(0..letters.len() - 1)].as_bytes().to_vec()).flatten().collect();
+            while w.len() < target {
+                w.extend(&unit);
+                if ctx.rng.random_range(0..50) == 0 {
+                    w.extend(letters[ctx.rng.random_range(0..letters.len() - 1)].as_bytes());
+                }
+            }
+            if std::str::from_utf8(&w).map(|x| !x.chars().any(char::is_whitespace)).unwrap_or(false) {
+                let mut v = vec![t.len() as u64];
+                for (b, id) in &t {
+                    enc_bytes(&mut v, b);
+                    v.push(*id as u64);
+                }
+                enc_bytes(&mut v, &w);
+                ctx.case("bpeword", &v);
+            }
+        }
         if c03 {
             // words (no whitespace inside; optional leading space as the word splitter produces)
             let reps = if ctx.thorough { 60 } else { 30 };
@@ -1033,7 +1069,22 @@ pub fn run_bpe(ctx: &mut Ctx, c03: bool) {
 }
 
 pub fn run_c04(ctx: &mut Ctx) {
-    let n = ctx.budget(60, 3000);
+    if ctx.first_shard() {
+        // every tokenizer kind with special-token lists that do / do not contain the unknown token and the default names
+        let lists: [&[&str]; 5] = [&["<pad>"], &["<pad>", "<s>", "</s>"], &["<unk>", "<pad>"], &["<pad>", "<unk>", "<bos>", "<eos>"], &["<x>", "<pad>"]];
+        for l in lists {
+            let tokens: Vec<String> = l.iter().map(|x| x.to_string()).collect();
+            let c = Common { tokens: tokens.clone(), pad: "<pad>".into(), prefix: vec![tokens[0].clone()], suffix: vec![] };
+            for unk in ["<unk>", "<x>", "<bos>"] {
+                for g in [false, true] {
+                    emit_vocab(ctx, "charvocab", &Kind::Char { g, alphabet: char_alphabet(), unk: unk.into() }, &c, 300);
+                }
+            }
+            emit_vocab(ctx, "bytevocab", &Kind::Byte { cp_groups: false, pad_to: None }, &c, 300);
+            emit_vocab(ctx, "bpevocab", &Kind::Bpe { table: adversarial_tables()[0].clone(), max_vocab: None }, &c, 300);
+        }
+    }
+    let n = ctx.budget(150, 3000);
     for i in 0..n {
         let c = rand_common(ctx, true);
         let margin = 300;
